@@ -21,8 +21,10 @@ Open Scope string_scope. Open Scope list_scope.
 Inductive fkind := FReg | FSym | FDir | FLink | FOther.
 (* the APK-TOOLS.checksum.SHA1 record of a header: absent, undecodable, or bytes *)
 Inductive recsum := SumNone | SumBad | SumSome (d : list N).
-(* one tar entry of a data section; [f_link] = header.Linkname (hard links) *)
-Record dfile := { f_name : string; f_kind : fkind; f_body : list N; f_sum : recsum; f_link : string }.
+(* one tar entry of a data section as archive/tar yields it; [f_link] = header.Linkname
+   (hard links); [f_sparse]: expanded from a GNU / PAX sparse representation ([f_body] is
+   then the LOGICAL content, which is not what is stored at the entry's offset) *)
+Record dfile := { f_name : string; f_kind : fkind; f_body : list N; f_sum : recsum; f_link : string; f_sparse : bool }.
 (* a control section: its bytes (one gzip member) and what its .PKGINFO says *)
 Record control := { c_raw : list N; c_desc : string; c_datahash : list string }.
 (* a data section: its compressed bytes and the tar entries an installer reads *)
@@ -70,6 +72,89 @@ Definition bytes_eqb := list_eqb N.eqb.
 Fixpoint assoc_b {A} (x : list N) (l : list (list N * A)) : option A :=
   match l with [] => None | (k, v) :: l' => if bytes_eqb x k then Some v else assoc_b x l' end.
 
+(* ---- the .PKGINFO text ------------------------------------------------------
+   controlValue (pkg/apk/apk/util.go) reads the WHOLE first .PKGINFO entry
+   (io.ReadAll: no limit on its size or on the length of a line), splits it at
+   every "\n", splits every line at every "=", keeps the lines that have
+   exactly two parts and whose first part, trimmed, is the wanted key, and
+   collects the trimmed second parts IN ORDER: every such line counts, not the
+   first or the last one. The functions are written with accumulators so that
+   vm_compute runs them on lines of a megabyte. *)
+Fixpoint rev_str (s acc : string) : string :=
+  match s with EmptyString => acc | String c r => rev_str r (String c acc) end.
+(* strings.Split(s, sep) for a one-byte separator; [cur] is the current part reversed *)
+Fixpoint split_acc (sep : ascii) (s cur : string) (acc : list string) : list string :=
+  match s with
+  | EmptyString => List.rev_append acc [rev_str cur ""]
+  | String c r => if Ascii.eqb c sep then split_acc sep r "" (rev_str cur "" :: acc)
+                  else split_acc sep r (String c cur) acc
+  end.
+Definition split_on (sep : ascii) (s : string) : list string := split_acc sep s "" [].
+
+(* unicode.IsSpace on the front of a UTF-8 string: \t \n \v \f \r space, U+0085, U+00A0,
+   U+1680, U+2000..U+200A, U+2028, U+2029, U+202F, U+205F, U+3000. [strip_space s] =
+   the rest of [s] after one leading white-space rune, if there is one. *)
+Definition is_ascii_space (c : ascii) : bool :=
+  let n := N_of_ascii c in ((9 <=? n) && (n <=? 13) || (n =? 32))%N.
+Definition strip_space (s : string) : option string :=
+  match s with
+  | EmptyString => None
+  | String c r =>
+      if is_ascii_space c then Some r else
+      match N_of_ascii c, r with
+      | 194%N, String d r2 => let m := N_of_ascii d in if ((m =? 133) || (m =? 160))%N then Some r2 else None
+      | 225%N, String d (String e r3) => if ((N_of_ascii d =? 154) && (N_of_ascii e =? 128))%N then Some r3 else None
+      | 226%N, String d (String e r3) =>
+          let m := N_of_ascii d in let k := N_of_ascii e in
+          if ((m =? 128) && ((128 <=? k) && (k <=? 138) || (k =? 168) || (k =? 169) || (k =? 175)) || (m =? 129) && (k =? 159))%N
+          then Some r3 else None
+      | 227%N, String d (String e r3) => if ((N_of_ascii d =? 128) && (N_of_ascii e =? 128))%N then Some r3 else None
+      | _, _ => None
+      end
+  end.
+(* the same seen from the END of the string (argument: the string reversed) *)
+Definition strip_space_rev (s : string) : option string :=
+  match s with
+  | EmptyString => None
+  | String c r =>
+      if is_ascii_space c then Some r else
+      match r with
+      | String d r2 =>
+          let k := N_of_ascii c in let m := N_of_ascii d in
+          if ((m =? 194) && ((k =? 133) || (k =? 160)))%N then Some r2 else
+          match r2 with
+          | String e r3 =>
+              let l := N_of_ascii e in
+              if ((l =? 225) && (m =? 154) && (k =? 128) ||
+                  (l =? 226) && ((m =? 128) && ((128 <=? k) && (k <=? 138) || (k =? 168) || (k =? 169) || (k =? 175)) || (m =? 129) && (k =? 159)) ||
+                  (l =? 227) && (m =? 128) && (k =? 128))%N
+              then Some r3 else None
+          | EmptyString => None
+          end
+      | EmptyString => None
+      end
+  end.
+(* repeated stripping; the fuel is the length of the string (each step removes a byte or more) *)
+Fixpoint trim_with (strip : string -> option string) (fuel : nat) (s : string) : string :=
+  match fuel with
+  | O => s
+  | S f => match strip s with Some r => trim_with strip f r | None => s end
+  end.
+Fixpoint len_acc (s : string) (n : nat) : nat := match s with EmptyString => n | String _ r => len_acc r (S n) end.
+(* strings.TrimSpace *)
+Definition trim_space (s : string) : string :=
+  let a := trim_with strip_space (len_acc s O) s in
+  rev_str (trim_with strip_space_rev (len_acc a O) (rev_str a "")) "".
+
+(* the values of [key] in a .PKGINFO text, in the order of their lines *)
+Definition line_value (key line : string) : list string :=
+  match split_on "="%char line with
+  | [k; v] => if String.eqb (trim_space k) key then [trim_space v] else []
+  | _ => []
+  end.
+Definition control_values (text key : string) : list string :=
+  List.flat_map (line_value key) (split_on "010"%char text).
+
 (* one package directory of the on-disk cache. <hex sha1>.ctl.tar.gz is keyed by
    the digest (hex of a byte string is injective); <name>.dat.tar.gz and
    <name>.dat.tar (the uncompressed copy installs read) are keyed by the name as
@@ -110,13 +195,19 @@ Record fetched := {
 }.
 Inductive fres := FOk (e : fetched) | FErr (c : eclass).
 
+(* the package tar index (pkg/apk/internal/tarfs.New over the uncompressed data section)
+   hands out the bytes found at an entry's offset; since fix 950e586 it refuses an archive
+   with a sparse entry (finding C05-F4: the lazy install served the stored fragments and
+   what follows them, bytes nothing had hashed) *)
+Definition index_ok (fs : list dfile) : bool := negb (existsb f_sparse fs).
+
 Section Oracles.
   Variable sha1 : list N -> list N.
   Variable sha256 : list N -> list N.
   Variable b64 : string -> option (list N).      (* base64.StdEncoding.DecodeString; None = error *)
   (* decoders of member bytes (gzip, archive/tar, the .PKGINFO line format) *)
   Variable first_name : list N -> option string.              (* Name of the first tar header inside one member; None: none can be read *)
-  Variable ctl_view : list N -> option (string * list string). (* a member read as control section: pkgdesc and the datahash values of its .PKGINFO; None: no readable tar / no .PKGINFO *)
+  Variable ctl_view : list N -> option (string * string).      (* a member read as control section: pkgdesc and the TEXT of its first .PKGINFO entry; None: no readable tar / no .PKGINFO *)
   Variable gunzip : list N -> option (list N).                 (* all members of the byte string decompressed and concatenated; None: error *)
   Variable untar : list N -> option (list dfile).              (* the entries up to the end-of-archive marker; None: error *)
 
@@ -126,7 +217,7 @@ Section Oracles.
 
   Definition mk_ctl (raw : list N) : option control :=
     match ctl_view raw with
-    | Some (d, dhs) => Some {| c_raw := raw; c_desc := d; c_datahash := dhs |}
+    | Some (d, text) => Some {| c_raw := raw; c_desc := d; c_datahash := control_values text "datahash" |}
     | None => None
     end.
   Definition dat_view (gz : list N) : option (list dfile) :=
@@ -208,6 +299,7 @@ Section Oracles.
             | None => FErr EExpand                               (* checkSums / tarfs.New on the data section *)
             | Some fs =>
                 if u_full u && negb (check_sums fs) then FErr ESums
+                else if negb (index_ok fs) then FErr EExpand     (* tarfs.New on the data section *)
                 else match mk_ctl (u_ctl u) with
                      | None => FErr EExpand                      (* tarfs.New on the control section / no .PKGINFO *)
                      | Some c =>
@@ -246,12 +338,17 @@ Section Oracles.
                       match assoc_s dh (k_gz k) with
                       | Some gz =>
                           if is_hex dh then
-                            let mk fs := {| x_ctl := c; x_ctl_file := craw; x_dat := {| d_raw := gz; d_files := fs |}; x_ctl_hash := sum |} in
+                            let mk t := match untar t with
+                                        | Some fs => if index_ok fs
+                                                     then Some {| x_ctl := c; x_ctl_file := craw; x_dat := {| d_raw := gz; d_files := fs |}; x_ctl_hash := sum |}
+                                                     else None
+                                        | None => None
+                                        end in
                             match assoc_s dh (k_tar k) with
-                            | Some t => (option_map mk (untar t), k)
+                            | Some t => (mk t, k)
                             | None =>
                                 match gunzip gz with
-                                | Some t => (option_map mk (untar t),
+                                | Some t => (mk t,
                                              {| k_ctl := k_ctl k; k_gz := k_gz k; k_tar := (dh, t) :: k_tar k |})
                                 | None => (None, k)
                                 end
@@ -281,7 +378,9 @@ Section Oracles.
     let gz := match assoc_s n (k_gz k') with Some g => g | None => e_gz e end in
     let tar := match assoc_s n (k_tar k') with Some t => t | None => e_tar e end in
     (k', match untar tar with
-         | Some fs => Some {| x_ctl := e_ctl e; x_ctl_file := cfile; x_dat := {| d_raw := gz; d_files := fs |}; x_ctl_hash := e_ch e |}
+         | Some fs => if index_ok fs
+                      then Some {| x_ctl := e_ctl e; x_ctl_file := cfile; x_dat := {| d_raw := gz; d_files := fs |}; x_ctl_hash := e_ch e |}
+                      else None
          | None => None
          end).
 
@@ -337,6 +436,23 @@ Section Oracles.
         end
     end.
 End Oracles.
+
+(* ---- where the bytes of a fetch come from (APK.FetchPackage + cacheTransport.RoundTrip with
+   etagRequired = false) ----------------------------------------------------------
+   A local path ("file" scheme) is opened directly. An http(s) URL with a cache
+   configured goes through the cache transport: a file found under the URL-derived
+   name <cache>/<escaped repository URL>/<arch>/<name>.apk ([whole]; nothing in apko
+   writes it, a cache directory is pre-populated with it) IS the response, online
+   and offline alike, and the origin is not asked; without such a file an OFFLINE
+   cache fails and an online one asks the origin. Nothing on this path looks at
+   the bytes: whatever comes out is "served" to expandPackage like any download. *)
+Definition fetch (http has_cache offline : bool) (whole origin : option stream) : option stream :=
+  if http && has_cache then
+    match whole with
+    | Some w => Some w
+    | None => if offline then None else origin
+    end
+  else origin.
 
 (* ---- installation ----------------------------------------------------------- *)
 (* leading hidden top-level entries are skipped until the data section starts *)
